@@ -117,7 +117,7 @@ func execStressReg(t *testing.T, c *Case) *Trace {
 		if k == "<nil>" {
 			return w.handler.KeyAsChannel(nil)
 		}
-		return w.handler.KeyAsChannel(k)
+		return w.handler.KeyAsChannel(keyVal(k))
 	}
 	obs := make([]*RegObs, len(c.Reg))
 	for i, op := range c.Reg {
